@@ -102,25 +102,38 @@ def c01(rep, tier):
                 if ipt is None or vm.act_field(ipt) != (0, ipspec['act_field']):
                     why.append('ip becomes %s, contract: %s of the finished activation' % (t_show(ipt) if ipt else 'unchanged', ipspec['act_field']))
             elif isinstance(ipspec, dict) and 'if_zero' in ipspec:
-                # which side of the test is this path?
-                zero = None
-                for t, pol in s.guards:
+                # the two outcomes: either two paths split by the test, or one path with ip = ite(test, a, b)
+                outcomes = []
+
+                def polarity_of(t, pol):
+                    if isinstance(t, tuple) and t[0] == 'not':
+                        return polarity_of(t[1], not pol)
                     if isinstance(t, tuple) and t[0] == 'cmp' and t[1] in ('==', '!='):
                         a, b = t[2], t[3]
                         other = b if a == C(0) else (a if b == C(0) else None)
                         if other is not None and load_loc(other) == (ipspec['if_zero']['frame'], ipspec['if_zero']['reg']):
-                            zero = (t[1] == '==') == pol
-                if zero is None:
-                    why.append('path is not decided by "%s == 0": guards %s' % (ipspec['if_zero']['reg'], [(t_show(t), p) for t, p in s.guards]))
+                            return (t[1] == '==') == pol
+                    return None
+                if isinstance(ipt, tuple) and ipt[0] == 'ite':
+                    z = polarity_of(ipt[1], True)
+                    if z is not None:
+                        outcomes = [(z, ipt[2]), (not z, ipt[3])]
                 else:
-                    c, atoms = lin_parts(ipt) if ipt is not None else (0, {})
-                    jumped = ipt is not None and c == 0 and len(atoms) == 2 and atoms.get(vm.ip0()) == 1 and \
+                    for t, pol in s.guards:
+                        z = polarity_of(t, pol)
+                        if z is not None:
+                            outcomes = [(z, ipt)]
+                if not outcomes:
+                    why.append('ip is not decided by "%s == 0": ip = %s under guards %s' % (ipspec['if_zero']['reg'], t_show(ipt) if ipt else 'unchanged', [(t_show(t), p) for t, p in s.guards]))
+                for zero, it in outcomes:
+                    c, atoms = lin_parts(it) if it is not None else (0, {})
+                    jumped = it is not None and c == 0 and len(atoms) == 2 and atoms.get(vm.ip0()) == 1 and \
                         [vm.operand_of(a) for a in atoms if a != vm.ip0()] == [ipspec['then_offset']]
-                    stepped = ipt == t_add(vm.ip0(), C(1))
+                    stepped = it == t_add(vm.ip0(), C(1))
                     if zero and not jumped:
-                        why.append('when the register is zero ip becomes %s, contract: ip + %s' % (t_show(ipt) if ipt else 'unchanged', ipspec['then_offset']))
+                        why.append('when the register is zero ip becomes %s, contract: ip + %s' % (t_show(it) if it else 'unchanged', ipspec['then_offset']))
                     if not zero and not stepped:
-                        why.append('when the register is non-zero ip becomes %s, contract: ip+1' % (t_show(ipt) if ipt else 'unchanged'))
+                        why.append('when the register is non-zero ip becomes %s, contract: ip+1' % (t_show(it) if it else 'unchanged'))
             # ---- returns
             r = s.ret()
             want = spec['returns']
@@ -199,7 +212,9 @@ def c01(rep, tier):
             if dspec == 'same' and other:
                 why.append('data resized (%s), contract: size unchanged' % [o[0] for o in other])
             elif isinstance(dspec, dict) and 'append_zeros' in dspec:
-                okd = len(other) == 1 and other[0][0] == 'append_n' and vm.operand_of(other[0][1].term) == dspec['append_zeros'] and other[0][2].term == C(0)
+                from .props_vm import growth_of
+                gr = growth_of(vm, other[0]) if len(other) == 1 else None
+                okd = gr is not None and vm.operand_of(gr[0]) == dspec['append_zeros'] and gr[1].term == C(0)
                 if not okd:
                     why.append('contract: append %s zero words; found %s' % (dspec['append_zeros'], [o[0] for o in other]))
             elif dspec == 'shrink_to_popped_frame':
